@@ -786,3 +786,145 @@ theorem nextLeafAt_spec (k order : Key) (hko : k.length ≤ order.length) : ∀ 
 
 end Trie
 end KadDHT
+
+namespace KadDHT
+variable {α : Type}
+
+/-! ### CoalesceTrie keeps the covered keyspace -/
+
+theorem cpl_of_diverge : ∀ (path a c : Key) (b : Bool), isPre (path ++ [b]) a = true → isPre (path ++ [!b]) c = true →
+    cpl a c = path.length
+  | [], a, c, b, ha, hc => by
+    cases a with
+    | nil => simp [isPre] at ha
+    | cons a0 a =>
+      cases c with
+      | nil => simp [isPre] at hc
+      | cons c0 c =>
+        simp only [List.nil_append, isPre, Bool.and_true, beq_iff_eq] at ha hc
+        subst ha hc
+        cases b <;> simp [cpl]
+  | p :: path, a, c, b, ha, hc => by
+    cases a with
+    | nil => simp [isPre] at ha
+    | cons a0 a =>
+      cases c with
+      | nil => simp [isPre] at hc
+      | cons c0 c =>
+        simp only [List.cons_append, isPre, Bool.and_eq_true, beq_iff_eq] at ha hc
+        obtain ⟨rfl, ha'⟩ := ha
+        obtain ⟨rfl, hc'⟩ := hc
+        simp [cpl, cpl_of_diverge path a c b ha' hc']
+
+namespace Trie
+
+/-- some stored key is a prefix of `x` -/
+def Covers (t : Trie α) (x : Key) : Prop := ∃ k ∈ keysL t, isPre k x = true
+
+theorem covers_node_iff {l r : Trie α} {path x : Key} (hwf : WF path (node l r)) (hx : isPre path x = true)
+    (hlt : path.length < x.length) :
+    Covers (node l r) x ↔ (if bitAt x path.length then Covers r x else Covers l x) := by
+  have hsn := isPre_snoc_of hx hlt
+  unfold Covers
+  simp only [keysL, List.mem_append]
+  cases hb : bitAt x path.length with
+  | false =>
+    rw [hb] at hsn
+    simp only [Bool.false_eq_true, ↓reduceIte]
+    constructor
+    · rintro ⟨k, hk | hk, hkx⟩
+      · exact ⟨k, hk, hkx⟩
+      · have := not_isPre_of_diverge (x := true) (hwf.2.mem_isPre hk) (by simpa using hsn)
+        rw [this] at hkx; cases hkx
+    · rintro ⟨k, hk, hkx⟩; exact ⟨k, Or.inl hk, hkx⟩
+  | true =>
+    rw [hb] at hsn
+    simp only [↓reduceIte]
+    constructor
+    · rintro ⟨k, hk | hk, hkx⟩
+      · have := not_isPre_of_diverge (x := false) (hwf.1.mem_isPre hk) (by simpa using hsn)
+        rw [this] at hkx; cases hkx
+      · exact ⟨k, hk, hkx⟩
+    · rintro ⟨k, hk, hkx⟩; exact ⟨k, Or.inr hk, hkx⟩
+
+/-- CoalesceTrie: well-formedness is kept and exactly the same (long enough) keys are covered -/
+theorem coalesce_spec_at [Inhabited α] : ∀ (t : Trie α) (path : Key), WF path t →
+    WF path (coalesce t) ∧
+    ∀ x, isPre path x = true → path.length + t.height ≤ x.length → (Covers t x ↔ Covers (coalesce t) x) := by
+  intro t
+  induction t with
+  | empty => intro path h; exact ⟨h, fun _ _ _ => Iff.rfl⟩
+  | leaf k d => intro path h; exact ⟨h, fun _ _ _ => Iff.rfl⟩
+  | node l r ihl ihr =>
+    intro path hwf
+    obtain ⟨hwl, hcl⟩ := ihl (path ++ [false]) hwf.1
+    obtain ⟨hwr, hcr⟩ := ihr (path ++ [true]) hwf.2
+    -- the unmerged result
+    have plain : WF path (node (coalesce l) (coalesce r)) ∧
+        ∀ x, isPre path x = true → path.length + (node l r).height ≤ x.length →
+          (Covers (node l r) x ↔ Covers (node (coalesce l) (coalesce r)) x) := by
+      refine ⟨⟨hwl, hwr⟩, ?_⟩
+      intro x hx hh
+      simp only [height] at hh
+      have hlt : path.length < x.length := by omega
+      have hsn := isPre_snoc_of hx hlt
+      rw [covers_node_iff hwf hx hlt, covers_node_iff (l := coalesce l) (r := coalesce r) ⟨hwl, hwr⟩ hx hlt]
+      cases hb : bitAt x path.length with
+      | false =>
+        rw [hb] at hsn
+        simp only [Bool.false_eq_true, ↓reduceIte]
+        exact hcl x hsn (by simp; omega)
+      | true =>
+        rw [hb] at hsn
+        simp only [↓reduceIte]
+        exact hcr x hsn (by simp; omega)
+    -- what `coalesce (node l r)` is
+    cases hl' : coalesce l with
+    | empty => simpa [coalesce, hl'] using plain
+    | node a b => simpa [coalesce, hl'] using plain
+    | leaf k0 d0 =>
+      cases hr' : coalesce r with
+      | empty => simpa [coalesce, hl', hr'] using plain
+      | node a b => simpa [coalesce, hl', hr'] using plain
+      | leaf k1 d1 =>
+        by_cases hc : (decide (k0.length ≥ 1) && (k0.length == k1.length) && (cpl k0 k1 == k0.length - 1)) = true
+        · -- the two leaves are exactly the two children of this node: merged into one leaf at `path`
+          have hk0 : isPre (path ++ [false]) k0 = true := by rw [hl'] at hwl; exact hwl
+          have hk1 : isPre (path ++ [true]) k1 = true := by rw [hr'] at hwr; exact hwr
+          simp only [Bool.and_eq_true, decide_eq_true_eq, beq_iff_eq] at hc
+          have hcpl := cpl_of_diverge path k0 k1 false hk0 (by simpa using hk1)
+          have hlen0 : k0.length = path.length + 1 := by omega
+          have e0 : k0 = path ++ [false] := eq_path_of_short hk0 (by simp; omega)
+          have hmerged : coalesce (node l r) = leaf path default := by
+            simp only [coalesce, hl', hr']
+            have : (decide (k0.length ≥ 1) && (k0.length == k1.length) && (cpl k0 k1 == k0.length - 1)) = true := by
+              have h1 := hc.1.1
+              have h2 := hc.1.2
+              have h3 := hc.2
+              simp only [Bool.and_eq_true, decide_eq_true_eq, beq_iff_eq]
+              exact ⟨⟨h1, h2⟩, h3⟩
+            rw [if_pos this]
+            congr 1
+            rw [e0]; simp
+          rw [hmerged]
+          refine ⟨isPre_refl path, ?_⟩
+          intro x hx hh
+          constructor
+          · intro _; exact ⟨path, by simp [keysL], hx⟩
+          · intro _
+            rw [plain.2 x hx hh, hl', hr']
+            simp only [height] at hh
+            have hlt : path.length < x.length := by omega
+            have hsn := isPre_snoc_of hx hlt
+            have e1 : k1 = path ++ [true] := eq_path_of_short hk1 (by simp; omega)
+            cases hb : bitAt x path.length with
+            | false => rw [hb] at hsn; exact ⟨k0, by simp [keysL], by rw [e0]; exact hsn⟩
+            | true => rw [hb] at hsn; exact ⟨k1, by simp [keysL], by rw [e1]; exact hsn⟩
+        · have : coalesce (node l r) = node (coalesce l) (coalesce r) := by
+            simp only [coalesce, hl', hr']
+            rw [if_neg hc]
+          rw [this]
+          exact plain
+
+end Trie
+end KadDHT
